@@ -11,7 +11,11 @@ VARIABLES src, cfg, text, k
 vars == <<src, cfg, text, k>>
 
 MaxLen == IF "VERIF_FILTER_LEN" \in DOMAIN IOEnv THEN atoi(IOEnv.VERIF_FILTER_LEN) ELSE 4
-FilterSets == {<<"arch">>, <<"apt">>, <<"abi3">>, <<"apparmor4.1">>, <<"apparmor4.0">>, <<"debian", "zypper">>}
+\* (several filters: any one of them that names the target decides, whatever stands in front of it)
+FilterSets == {<<"arch">>, <<"apt">>, <<"abi3">>, <<"apparmor4.1">>, <<"apparmor4.0">>, <<"debian", "zypper">>,
+               <<"abi4", "debian">>, <<"apparmor3.0", "pacman">>, <<"opensuse", "abi4", "apparmor3.0">>}
+\* (no list is a prefix of another one: a directive whose line is the beginning of another directive's line is
+\* outside the contract - the literal replacement of the shorter line would cut the longer one; lead, DESIGN 7)
 Ln(kk, key, dk, fs, ind) == [k |-> kk, key |-> key, dk |-> dk, fs |-> fs, ind |-> ind]
 Menu == {Ln("line", "r1", "", <<>>, 0), Ln("line", "r2", "", <<>>, 0), Ln("blank", "", "", <<>>, 0), Ln("close", "}", "", <<>>, 0)}
    \cup {Ln("inl", "g1", dk, fs, 1) : dk \in {"only", "exclude"}, fs \in FilterSets}
